@@ -49,6 +49,7 @@ class Contract:
             elif k.startswith("hint_"):
                 self.hints[k[5:]] = _fn(v)
         self.pure = bool(d.get("pure", False))
+        self.ghost_out = dict(d.get("ghost_out", {}))  # local name -> Ty: final values of locals exposed to ensures
         self.functional = bool(d.get("functional", False))  # result is a deterministic function of the arguments
         self.ghost_yield = d.get("ghost_yield")  # Ty of yielded values for generators
         self.uses = list(d.get("uses", []))
